@@ -77,6 +77,10 @@ pub struct RunResult {
     /// the second instance that ran while this one was running (sessions only)
     pub intruder: Option<Box<RunResult>>,
     pub company_ambiguous: bool,
+    /// inode tables at the end of the run (for a second instance's host to take over)
+    pub inodes_after: Option<world::Inodes>,
+    /// content of files that were unlinked while somebody held them open
+    pub orphans_after: BTreeMap<u64, Vec<u8>>,
 }
 
 /// What a run of a session starts from and where it is cut short.
@@ -85,6 +89,8 @@ pub struct RunEnv {
     pub disk: Option<world::Disk>,
     pub crash: Option<world::CrashPlan>,
     pub intruder: Option<world::IntruderPlan>,
+    /// inode tables of the machine (a second instance shares them with the running one)
+    pub inodes: Option<world::Inodes>,
 }
 
 /// A second instance starts now, on the disk as the running instance has left it so far, and runs
@@ -101,24 +107,37 @@ pub fn run_intruder(plan: world::IntruderPlan) {
         epoch: outer.epoch + 100,
     };
     let gen = if plan.gen_id == 0 { Gen::Layout } else { Gen::Likely };
+    // process-private (unlinked but open) files of the running instance stay out of sight
+    let mut disk = disk;
+    let private: Vec<(String, Vec<u8>)> = outer.written.iter().filter(|(k, _)| k.starts_with("<orphan:")).map(|(k, v)| (k.clone(), v.clone())).collect();
+    disk.files.retain(|k, _| !k.starts_with("<orphan:"));
     let env = RunEnv {
         disk: Some(disk),
         crash: None,
         intruder: None,
+        inodes: Some(outer.inodes.clone()),
     };
     let image = outer.image.clone();
     let outer_panic = world::PANIC_INFO.with(|p| p.borrow_mut().take());
     let r = execute_once(gen, &image, plan.mode, false, false, None, false, &env);
     world::PANIC_INFO.with(|p| *p.borrow_mut() = outer_panic);
-    // did it touch a file the running instance holds open for writing? (inode identity decides
-    // what happens then; the simulated disk knows files by name only)
-    for k in outer.open_writers.keys() {
-        if r.disk_after.files.get(k) != outer.written.get(k) || r.disk_after.removed.contains(k) != outer.removed.contains(k) {
-            outer.company_ambiguous = true;
-        }
-    }
     // what the second instance did to the disk is what the first one finds when it goes on
     outer.written = r.disk_after.files.clone();
+    for (k, v) in private {
+        outer.written.insert(k, v);
+    }
+    if let Some(ino) = &r.inodes_after {
+        // names may have moved under the running instance's open handles (the second instance
+        // counted them as open all along and has closed its own)
+        outer.inodes = ino.clone();
+        // a file the running instance holds open that the second one unlinked or replaced lives
+        // on, nameless, for those handles
+        for (i, c) in &r.orphans_after {
+            if matches!(outer.inodes.names.get(i), Some(None)) {
+                outer.written.insert(world::orphan_key(*i), c.clone());
+            }
+        }
+    }
     outer.mtimes = r.disk_after.mtimes.clone();
     outer.removed = r.disk_after.removed.clone();
     outer.clock_ns = outer.clock_ns.max(r.disk_after.clock_ns) + 1_000;
@@ -414,6 +433,8 @@ fn failed_result(gen: Gen, profile: Option<Profile>, panic: String) -> RunResult
         disk_after: world::Disk::default(),
         intruder: None,
         company_ambiguous: false,
+        inodes_after: None,
+        orphans_after: BTreeMap::new(),
     }
 }
 
@@ -467,6 +488,10 @@ fn execute_once(
         fresh.load_disk(d);
     }
     fresh.crash = env.crash;
+    if let Some(i) = &env.inodes {
+        // (the handles counted there belong to the other process and stay open throughout)
+        fresh.inodes = i.clone();
+    }
     if !crate::isolate::ISOLATE.load(std::sync::atomic::Ordering::Relaxed) {
         // (a nested execution in one process would share the program's statics)
         fresh.intruder = env.intruder.clone();
@@ -550,6 +575,12 @@ fn execute_once(
         metadata_queries: w.metadata_queries,
         intruder: w.intruder_result.take(),
         company_ambiguous: w.company_ambiguous,
+        inodes_after: Some(w.inodes.clone()),
+        orphans_after: w
+            .written
+            .iter()
+            .filter_map(|(k, v)| k.strip_prefix("<orphan:").and_then(|r| r.strip_suffix('>')).and_then(|n| n.parse::<u64>().ok()).map(|n| (n, v.clone())))
+            .collect(),
         disk_after,
         gen,
         profile,
@@ -683,6 +714,7 @@ pub fn execute_session(gen: Gen, image: &Arc<FsImage>, steps: &[Step], mtime_see
             disk: Some(disk.clone()),
             crash: st.crash,
             intruder: st.intruder.clone(),
+            inodes: None,
         };
         let r = if st.drift.is_empty() {
             execute_env(gen, image, st.mode.clone(), &env, verbose)
@@ -1646,6 +1678,42 @@ mod tests {
         });
         assert!(r.is_ok());
         assert_eq!(w.out, "true");
+    }
+
+    #[test]
+    fn an_open_handle_follows_its_file_through_rename_and_unlink() {
+        let fresh = world::Disk::fresh(1);
+        let (w, d) = simulate_env(&[], &fresh, None, || {
+            // the handle follows the rename
+            let mut f = sstd::fs::File::create("../target/a.tmp").unwrap();
+            f.write_all(b"one ").unwrap();
+            sstd::fs::rename("../target/a.tmp", "../target/a.txt").unwrap();
+            f.write_all(b"two").unwrap();
+            drop(f);
+            // an unlinked file lives on for its handle and is gone afterwards
+            let mut g = sstd::fs::File::create("../target/spool").unwrap();
+            sstd::fs::remove_file("../target/spool").unwrap();
+            g.write_all(b"spooled").unwrap();
+            let gone = !sstd::path::Path::new("../target/spool").exists();
+            // a file replaced by a rename keeps its old content for handles opened before
+            sstd::fs::write("../target/b.txt", b"old").unwrap();
+            let mut h = sstd::fs::OpenOptions::new().append(true).open("../target/b.txt").unwrap();
+            sstd::fs::write("../target/b.new", b"new").unwrap();
+            sstd::fs::rename("../target/b.new", "../target/b.txt").unwrap();
+            h.write_all(b"+late").unwrap();
+            drop(h);
+            crate::seams::emit_str(&format!(
+                "{} {} {}",
+                sstd::fs::read_to_string("../target/a.txt").unwrap(),
+                gone,
+                sstd::fs::read_to_string("../target/b.txt").unwrap()
+            ));
+            drop(g);
+        });
+        assert_eq!(w.out, "one two true new");
+        assert!(!d.files.contains_key("../target/a.tmp"));
+        assert!(!d.files.contains_key("../target/spool"));
+        assert!(d.files.keys().all(|k| !k.starts_with("<orphan")), "{:?}", d.files.keys().collect::<Vec<_>>());
     }
 
     #[test]
